@@ -341,9 +341,14 @@ impl Version {
         let mut input = original;
 
         if input.len() > MAX_LENGTH {
+            // point at the last character, not into the middle of it
+            let mut last = input.len() - 1;
+            while !input.is_char_boundary(last) {
+                last -= 1;
+            }
             return Err(SemverError {
                 input: input.into(),
-                span: (input.len() - 1, 0).into(),
+                span: (last, 0).into(),
                 kind: SemverErrorKind::MaxLengthError,
             });
         }
